@@ -399,3 +399,10 @@ Proof.
   intros es H h. unfold parse_allowed, history_allowed.
   rewrite (roundtrip_main es H), (roundtrip_open es H). reflexivity.
 Qed.
+
+(** the round trip, both forms: the canonical result (open operations closed in ascending order of
+    their ids) and the set of results parseJepsenLog may return (Go map iteration order) *)
+Theorem roundtrip : forall es, Forall (fun e => printable e = true) es ->
+  parse_log (format_log es) = expected_log es /\
+  (forall h, parse_allowed (format_log es) h <-> history_allowed es h).
+Proof. intros es H. split; [exact (roundtrip_log es H)|exact (roundtrip_allowed es H)]. Qed.
